@@ -1415,6 +1415,17 @@ def typecheck_rules(repo, rep):
             rep.holds('R-DISPATCH', key, w, '%s objects are converted by their .dec()' % cn)
         else:
             rep.undecided('R-DISPATCH', key, w, 'angular_typecheck(%s object) = %s' % (cn, show(got, 3, 160)))
+    # the function hands back a FLOAT whatever it is given: an object's .dec() or float(angle) - never the argument itself (a numpy
+    # float32 or integer handed through keeps its own arithmetic: lon2 - lon1 is then evaluated in single precision)
+    key = 'R-DISPATCH::geodepy/angles.py::angular_typecheck::float-contract'
+    pn_ = f.params[0].name
+    raw_ret = [r_ for r_ in ast.walk(f.node) if isinstance(r_, ast.Return) and isinstance(r_.value, ast.Name) and r_.value.id == pn_]
+    if raw_ret:
+        rep.violated('R-DISPATCH', key, where(f, raw_ret[0]), 'angular_typecheck returns its argument unconverted on one path (`%s`): a numpy.float32 / integer scalar keeps its own arithmetic in '
+                     'vincinv, vincdir, geo2grid and llh2xyz - the longitude difference of two float32 values is formed in single precision (0.05 - 0.3 m in the distance)' % stmt_text(raw_ret[0])[:40],
+                     expected='float(%s)' % pn_, actual=stmt_text(raw_ret[0])[:40])
+    else:
+        rep.holds('R-DISPATCH', key, w, 'every path of angular_typecheck returns obj.dec() or float(angle)', work=False)
     # the summary was confirmed on geodepy.angles.angular_typecheck: every module that calls the name must mean THAT function (a second
     # definition further down a module, or an import from somewhere else, shadows it - last binding wins)
     n_use = 0
